@@ -3,6 +3,7 @@ package main
 import (
 	"encoding/json"
 	"fmt"
+	"sort"
 
 	"github.com/dcaiafa/lox/internal/lexergen/rang3"
 	"github.com/dcaiafa/lox/verif/internal/ivl"
@@ -154,7 +155,13 @@ func c15Normalize(a []rang3.Range) string {
 		return bad
 	}
 	var all []rang3.Range
-	for k, ps := range pieces {
+	var origs []rang3.Range
+	for k := range pieces {
+		origs = append(origs, k)
+	}
+	sort.Slice(origs, func(i, j int) bool { return rang3.Compare(origs[i], origs[j]) < 0 })
+	for _, k := range origs {
+		ps := pieces[k]
 		if !ivl.Equal(toSet(ps), toSet([]rang3.Range{k})) {
 			return fmt.Sprintf("after Normalize the pieces %s of [%X,%X] are not an exact union of it", rangesText(ps), k.B, k.E)
 		}
